@@ -10,6 +10,7 @@ import (
 	"strings"
 	"sync"
 	"testing"
+	"time"
 
 	lc "github.com/google/licenseclassifier"
 	"pgregory.net/rapid"
@@ -120,7 +121,11 @@ func c14LCheck(ci interface{}) lib.Outcome {
 		}(g, ops)
 	}
 	close(start)
-	wg.Wait()
+	if verdict, report := lib.WaitBatch(&wg, "c14LCheck.func", 30*time.Second, 10*time.Minute); verdict == "deadlock" {
+		return lib.Outcome{Violation: "deadlock: the concurrent batch never finishes: " + report}
+	} else if verdict == "slow" {
+		return lib.Outcome{Skip: "batch-unfinished-after-10-minutes-but-not-provably-deadlocked"}
+	}
 	if firstBad != "" {
 		return lib.Outcome{Violation: firstBad}
 	}
